@@ -6,7 +6,7 @@ from .c02 import C02
 class C03(C02):
     id = "C03"
     two_sided = False
-    families = list(hist.FAMILIES) + ["destructive", "destructive", "destructive"]
+    families = list(hist.FAMILIES) + ["destructive", "destructive", "destructive", "fastpath"]
     quick_runs, thorough_runs = 600, 10000
     quick_budget_s, thorough_budget_s = 170, 1800
     rule = ("one run = base commit + one scenario family over the full porcelain incl. the discard-then-rewrite "
